@@ -89,6 +89,171 @@ def run(ctx):
             r1b.violation(key, "Z is %s, not derived from block_partitioning" % show(a["value"], 100), loc(a["sp"]))
     r1b.floor(4, "2 readers + 2 Z writes")
 
+    # ---- R1c: the receiver hands its partition to block_length under the right parameter names --------------------------
+    r1c = ctx.rule("C07.R1c", "every call of partition::block_length passes (self.a_large, self.a_small, self.nb_a_large, transfer length, "
+                              "oti.encoding_symbol_length, packet SBN) in the callee's parameter order, and those three fields are exactly the "
+                              "(a_large, a_small, nb_a_large) components of the block_partitioning result", "ARG by parameter name")
+    callee = prog.fn("common::partition::block_length")
+    pnames = [callee.body.names.get(i, "arg%d" % i) for i in range(1, callee.body.argc + 1)]
+    want = {"a_large": r"^self\.a_large$", "a_small": r"^self\.a_small$", "nb_a_large": r"^self\.nb_a_large$", "l": r"transfer_length",
+            "e": r"encoding_symbol_length", "sbn": r"\.sbn$"}
+    sites = find_calls(prog, r"^common::partition::block_length$")
+    for s_ in sites:
+        sl_ = Slicer(s_.body)
+        for i, pn in enumerate(pnames):
+            if pn not in want:
+                continue
+            from ..cfg import strip_casts
+            a = strip_casts(sl_.expand(s_.expr[2][i]))
+            txt = show(a, 200)
+            key = "%s block_length(%s)" % (s_.func.root().path.split("::")[-1], pn)
+            if re.search(want[pn], txt) and not any(re.search(w, txt) for k2, w in want.items() if k2 != pn and k2 in ("a_large", "a_small", "nb_a_large")):
+                r1c.ok(key, txt[:80], s_.loc)
+            else:
+                r1c.violation(key, "parameter `%s` receives %s" % (pn, txt[:100]), s_.loc)
+    # the fields are the matching tuple components
+    ib = prog.fn("receiver::objectreceiver::ObjectReceiver::init_blocks_partitioning")
+    isl = Slicer(ib.body)
+    comp = {"a_large": ".0", "a_small": ".1", "nb_a_large": ".2", "nb_blocks": ".3"}
+    for fld, sfx in sorted(comp.items()):
+        for a in field_accesses(prog, "receiver::objectreceiver::ObjectReceiver", fld, funcs=[ib]):
+            if a["kind"] != "assign":
+                continue
+            ex = isl.expand(a["value"])
+            key = "init_blocks_partitioning self.%s" % fld
+            ok = ex[0] == "proj" and ex[2] == sfx and ex[1][0] == "call" and ex[1][1] == "common::partition::block_partitioning"
+            if ok:
+                r1c.ok(key, "= block_partitioning(..)%s" % sfx, loc(a["sp"]))
+            else:
+                r1c.violation(key, "self.%s = %s; expected component %s of block_partitioning" % (fld, show(ex, 80), sfx), loc(a["sp"]))
+    be = prog.fn("sender::blockencoder::BlockEncoder::block_partitioning")
+    bsl = Slicer(be.body)
+    for fld, sfx in sorted(comp.items()):
+        for a in field_accesses(prog, "sender::blockencoder::BlockEncoder", fld, funcs=[be]):
+            if a["kind"] != "assign":
+                continue
+            ex = bsl.expand(a["value"])
+            key = "BlockEncoder::block_partitioning self.%s" % fld
+            ok = ex[0] in ("proj", "tmp") and (ex[2] == sfx) and "block_partitioning" in show(ex, 300) or (ex[0] == "tmp" and ex[2] == sfx)
+            if ok:
+                r1c.ok(key, "component %s" % sfx, loc(a["sp"]))
+            else:
+                r1c.violation(key, "self.%s = %s; expected component %s of block_partitioning" % (fld, show(ex, 80), sfx), loc(a["sp"]))
+    r1c.floor(10, "block_length arguments and partition components")
+    partition_polynomials(ctx)
+
+
+
+def partition_polynomials(ctx, prefix="C07.R"):
+    """R3/R4: on recognised shapes, the arithmetic of block_partitioning / block_length equals the RFC 5052 reference as
+    polynomials (insensitive to algebraic rewrites); shapes that are not polynomial in the recognised atoms are NOT decided."""
+    from .. import poly, polarity
+    from ..cfg import facts_of
+    prog = ctx.prog
+    r3 = ctx.rule(prefix + ("3" if prefix.endswith("R") else "p"), "block_partitioning returns (ceil(T/N), floor(T/N), T - floor(T/N)*N, N) with T = ceil(L/E), N = ceil(T/B) "
+                            "(polynomial identity over div_ceil/div_floor atoms; unrecognised shapes are reported as not decided)", "polynomial normal form")
+    f = prog.fn("common::partition::block_partitioning")
+    ctx.analysed(f.path)
+    sl = Slicer(f.body)
+    strip_sfx = lambda n: re.sub(r"~\d+", "", n)
+    T = "div_ceil(+1*l ; +1*e)"
+    N = "div_ceil(+1*%s ; +1*b)" % T
+    ref = [poly.var("div_ceil(+1*%s ; +1*%s)" % (T, N)), poly.var("div_floor(+1*%s ; +1*%s)" % (T, N)),
+           poly.add(poly.var(T), poly.mul(poly.var("div_floor(+1*%s ; +1*%s)" % (T, N)), poly.var(N)), -1), poly.var(N)]
+    names = ["a_large", "a_small", "nb_a_large", "nb_blocks"]
+    tuples = [(blk.i, st) for blk in f.body.blocks if not blk.cleanup for st in blk.stmts
+              if st.k == "assign" and st.lhs == (0, ()) and st.rv.k == "aggr" and st.rv.j.get("ak") == "tuple" and len(st.rv.ops) == 4]
+    n = 0
+    for bb, st in tuples:
+        comps = [sl.expand(sl.x.operand(o)) for o in st.rv.ops]
+        if all(c[0] == "const" and c[2] == 0 for c in comps):
+            continue  # degenerate inputs: (0, 0, 0, 0)
+        for nm, c, rf in zip(names, comps, ref):
+            n += 1
+            key = "block_partitioning %s" % nm
+            try:
+                p = poly.from_expr(c, strip_sfx)
+            except poly.Unrecognised as u:
+                r3.note(key, "not decided: shape not recognised (%s)" % u, loc(st.sp))
+                continue
+            if p == rf:
+                r3.ok(key, poly.text(p)[:120], loc(st.sp))
+            else:
+                r3.violation(key, "%s = %s but RFC 5052 gives %s" % (nm, poly.text(p)[:160], poly.text(rf)[:160]), loc(st.sp))
+    r3.floor(1, "partition result components")
+
+    r4 = ctx.rule(prefix + ("4" if prefix.endswith("R") else "q"), "block_length returns either a full block (a_large*e / a_small*e for the block's class) or L minus the byte offset of the "
+                            "block, the offset being sbn*a_large*e for sbn < nb_a_large and nb_a_large*a_large*e + (sbn - nb_a_large)*a_small*e otherwise "
+                            "(polynomial identity; unrecognised shapes are reported as not decided)", "polynomial normal form per path")
+    g = prog.fn("common::partition::block_length")
+    ctx.analysed(g.path)
+    gsl = Slicer(g.body)
+    gfl = Flow(g.body)
+    V = poly.var
+    A, S_, NL, L, E, SBN = V("a_large"), V("a_small"), V("nb_a_large"), V("l"), V("e"), V("sbn")
+    full_large = poly.mul(A, E)
+    full_small = poly.mul(S_, E)
+    off_large = poly.mul(poly.mul(SBN, A), E)
+    off_small = poly.add(poly.mul(poly.mul(NL, A), E), poly.mul(poly.mul(poly.add(SBN, NL, -1), S_), E))
+    rets = ret_assign_blocks(g.body, lambda e: True)
+    m = 0
+    for bb, e in rets:
+        ex = gsl.expand(e)
+        key = "block_length return %s" % show(e, 40)
+        try:
+            p = poly.from_expr(ex, strip_sfx)
+        except poly.Unrecognised as u:
+            r4.note(key, "not decided: shape not recognised (%s)" % u, loc(g.body.blocks[bb].term.sp) if g.body.blocks[bb].term.sp else loc(g.sp))
+            continue
+        # which class of block is this path about?  sign of (sbn + 1 - nb_a_large) from the dominating facts
+        cls = None
+        for fact in gfl.facts_at(bb):
+            kind, ck, fn = polarity.canon(fact)
+            if kind != "sign":
+                continue
+            names_ = [n_ for n_, _ in ck[0]]
+            if any("sbn" in n_ for n_ in names_) and any("nb_a_large" in n_ for n_ in names_):
+                coeff = {strip_sfx(n_): v for n_, v in ck[0]}
+                o = 1 if [v for n_, v in coeff.items() if "sbn" in n_][0] > 0 else -1
+                const_ = ck[1] * o         # key*o = sbn - nb_a_large + const_
+                for d in (-1, 0, 1):
+                    pass
+                truth = {d: fn(o * d) for d in (-1, 0, 1)}   # d = sign(sbn - nb_a_large + const_)
+                if const_ == 1:
+                    if truth == {-1: True, 0: False, 1: False}:
+                        cls = "large" if cls in (None, "large") else cls
+                    elif truth == {-1: False, 0: True, 1: False}:
+                        cls = "last-large"
+                    elif truth[1] and not truth[-1] and cls is None:
+                        cls = "small?"
+        # small class = neither (sbn+1 < nb_a_large) nor (sbn+1 == nb_a_large)
+        fs_txt = [cfgmod_show(f_) for f_ in gfl.facts_at(bb)]
+        if cls in (None, "small?"):
+            neg_lt = any(re.search(r"nb_a_large <= \(sbn.* \+ 1\)", t) for t in fs_txt)
+            neg_eq = any(re.search(r"^not\(\(sbn.* \+ 1\) == nb_a_large\)$", t) for t in fs_txt)
+            cls = "small" if (neg_lt and neg_eq) else None
+        m += 1
+        if cls is None:
+            r4.note(key, "not decided: block class of this path not recognised (%s)" % "; ".join(fs_txt)[:160], loc(g.sp))
+            continue
+        if cls == "large":
+            allowed = [full_large, poly.add(L, off_large, -1)]
+        elif cls == "last-large":
+            off = poly.mul(poly.mul(poly.add(NL, poly.const(1), -1), A), E)   # sbn = nb_a_large - 1
+            allowed = [full_large, poly.add(L, off, -1)]
+        else:
+            allowed = [full_small, poly.add(L, off_small, -1)]
+        if p in allowed:
+            r4.ok(key + " [%s block]" % cls, poly.text(p)[:120], loc(g.sp))
+        else:
+            r4.violation(key + " [%s block]" % cls, "returns %s; for a %s block the length must be %s" % (
+                poly.text(p)[:200], cls, " or ".join(poly.text(a_)[:120] for a_ in allowed)), loc(g.sp))
+    r4.floor(4, "block_length return paths")
+
+
+def cfgmod_show(f_):
+    from ..cfg import show_fact
+    return show_fact(f_)
 
 
 def nested_div_ceil(sl, f, aggr_stmt):
